@@ -33,6 +33,7 @@
 #include <sys/wait.h>
 #include <unistd.h>
 #include "uv.h"
+#include "c09_probe.h"
 
 ssize_t __real_write(int, const void*, size_t);
 ssize_t __real_read(int, void*, size_t);
@@ -44,6 +45,7 @@ int __real_sched_yield(void);
 #define MAXSEND 32
 #define MAXB 32
 #define MAXP 4096
+#define CB_STOP (-1)
 #define STEP_BOUND 3000
 
 enum { ST_RUN, ST_POLL, ST_DONE, ST_STUCK };
@@ -303,7 +305,8 @@ static void async_cb(uv_async_t* h) {
   yield_at("c");
   if (k < nbeh)
     for (j = 0; j < behlen[k]; j++) {
-      do_close(beh[k][j]);
+      if (beh[k][j] == CB_STOP) uv_stop(&loop);
+      else do_close(beh[k][j]);
       yield_at("c");
     }
 }
@@ -314,6 +317,8 @@ static void loop_thread(void) {
     switch (lops[i]) {
     case 'R': uv_run(&loop, UV_RUN_ONCE); break;
     case 'D': uv_run(&loop, UV_RUN_DEFAULT); break;
+    case 'N': uv_run(&loop, UV_RUN_NOWAIT); break;
+    case 'S': uv_stop(&loop); break;
     case 'C': do_close(largs[i]); break;
     }
     yield_at("T");
@@ -408,7 +413,12 @@ static int parse_case(char* line) {
     for (;;) {
       char* e = strchr(s, '|');
       if (e) *e = 0;
-      if (nbeh < MAXB) { behlen[nbeh] = parse_ints(s, beh[nbeh], MAXH); nbeh++; }
+      if (nbeh < MAXB) {
+        char* sv = NULL; char* t; int k = 0;
+        for (t = strtok_r(s, " ", &sv); t && k < MAXH + 1; t = strtok_r(NULL, " ", &sv))
+          beh[nbeh][k++] = t[0] == 's' ? CB_STOP : atoi(t);
+        behlen[nbeh++] = k;
+      }
       if (!e) break;
       s = e + 1;
     } }
@@ -435,6 +445,12 @@ static void run_case(char* line) {
   }
   g_efd = loop.async_io_watcher.fd;
   if (g_efd < 0 || loop.async_wfd != -1) fatal("no eventfd");
+  if (c09_poll_probes(&loop) != 0) {
+    outlen = 0;
+    out("PROBE-FAIL the loop's eventfd %d is missing from the epoll interest set after uv_poll_init() on the "
+        "descriptor numbers 3..63 (%d refused, %d accepted and closed)", g_efd, c09_probe_refused, c09_probe_accepted);
+    flush_and_exit(0);
+  }
   if (e0) {
     if (__real_write(g_efd, &e0, 8) != 8) fatal("preset of the eventfd");
     shadow = e0;
